@@ -74,7 +74,13 @@ def c27Step (_ : Unit) (op impl : String) : Unit × String × String :=
         let v := match im with
           | ["ok", _, _, _, _, p2] =>
             match hexDecode p2 with
-            | some p => if p.length + 11 ≤ d.length ∧ d.length ≤ p.length + 13 then "ok" else "viol:alloc-unbounded:propose.forward"
+            | some p =>
+              -- header size by version; the declared length must be exactly what is returned and what follows
+              let hsz := (d.headD 0).toNat + 10
+              if !(p.length + 11 ≤ d.length ∧ d.length ≤ p.length + 13) then "viol:alloc-unbounded:propose.forward"
+              else if d.length != hsz + p.length || rdBE ((d.drop (hsz - 4)).take 4) != p.length then
+                "viol:declared-length-ignored:propose.forward"
+              else "ok"
             | none => "viol:unparseable-output"
           | ["err"] => "ok"
           | _ => "viol:unparseable-output"
@@ -122,6 +128,8 @@ def c27Step (_ : Unit) (op impl : String) : Unit × String × String :=
             match (rest.getLast?).bind (fun t => if t.startsWith "off=" then (t.drop 4).toString.toNat? else none) with
             | some off =>
               if off > d.length then "viol:read-past-input"
+              else if (kind == "uvarint" || kind == "varint" || kind == "count" || kind == "slicecount") &&
+                  (off == 0 || off > 10 || (d.getD (off - 1) 0).toNat ≥ 128) then "viol:accepted-unterminated-varint"
               else if (kind == "count" || kind == "slicecount") && (rest.head?.bind String.toNat?).any (· > mx) then "viol:count-above-declared-max"
               else if kind == "bytes" && (rest.head?.bind hexDecode).any (fun b => b.length > d.length) then "viol:alloc-unbounded:prim.bytes"
               else "ok"
